@@ -138,13 +138,17 @@ func (m *Monitors) c13(c *Chain, o Op, res string) []string {
 			// previous phase finished: compare if observed completely
 			if m.phFirst && m.phStep >= 1 && int(m.phStep) <= len(p.Phases) {
 				B := p.Phases[m.phStep-1].YearCoefficient.Mul(sdkmath.LegacyNewDec(p.BlocksPerYear)).TruncateInt().Int64()
-				if B == m.phBlocks && B >= 1 {
+				if B >= 1 {
+					// the phase just left was observed from its first block to its last one
+					if B != m.phBlocks {
+						v = append(v, fmt.Sprintf("C13 phase %d lasted %d blocks but its year coefficient gives %d", m.phStep, m.phBlocks, B))
+					}
 					// |sum*1e18 - prov| < 1e18 + B
 					d := new(big.Int).Sub(new(big.Int).Mul(m.phSum.BigInt(), prec), m.phProv.BigInt())
 					d.Abs(d)
 					bound := new(big.Int).Add(prec, big.NewInt(B))
 					if d.Cmp(bound) >= 0 {
-						v = append(v, fmt.Sprintf("C13 phase %d minted %s over %d blocks but provisions were %s", m.phStep, m.phSum, B, m.phProv))
+						v = append(v, fmt.Sprintf("C13 phase %d minted %s over %d blocks but its provisions were %s", m.phStep, m.phSum, m.phBlocks, m.phProv))
 					}
 				}
 			}
